@@ -166,7 +166,7 @@ def from_float16_array(msg: ndarrays_pb2.Float16Array) -> np.ndarray:
 
 
 def _from_float_array(msg: TFloatMsg, dtype_base: npt.DTypeLike) -> np.ndarray:
-    if not msg.shape:
+    if msg.WhichOneof("data") is None:
         raise ValueError(f"Cannot convert unset/empty {type(msg)} message to a numpy array.")
 
     array_format = msg.WhichOneof("data")
@@ -356,7 +356,7 @@ def _from_int_array(msg: TIntMsg, dtype_base: npt.DTypeLike) -> np.ndarray:
     Returns:
         Numpy array with signed integer type.
     """
-    if not msg.shape:
+    if msg.WhichOneof("data") is None:
         raise ValueError(f"Cannot convert unset/empty {type(msg)} message to a numpy array.")
 
     array_format = msg.WhichOneof("data")
@@ -384,7 +384,7 @@ def _from_uint_array(msg: TUIntMsg, dtype_base: npt.DTypeLike) -> np.ndarray:
     Returns:
         Numpy array with unsigned integer type.
     """
-    if not msg.shape:
+    if msg.WhichOneof("data") is None:
         raise ValueError("Cannot convert unset/empty UIntArray message to a numpy array.")
 
     array_format = msg.WhichOneof("data")
@@ -471,7 +471,7 @@ def from_complex64_array(msg: ndarrays_pb2.Complex64Array) -> np.ndarray:
 
 
 def _from_complex_array(msg: TComplexMsg, dtype_base: npt.DTypeLike) -> np.ndarray:
-    if not msg.shape:
+    if msg.WhichOneof("data") is None:
         raise ValueError(f"Cannot convert unset/empty {type(msg)} message to a numpy array.")
 
     array_format = msg.WhichOneof("data")
@@ -527,12 +527,12 @@ def from_bitarray(msg: ndarrays_pb2.BitArray) -> np.ndarray:
     Returns:
         Numpy array.
     """
-    if not msg.shape:
+    if msg.WhichOneof("data") is None:
         raise ValueError(f"Cannot convert unset/empty {type(msg)} message to a numpy array.")
 
     # Load into uint8 array.
     flat_bytes = np.frombuffer(msg.flat_bytes, dtype=np.uint8)
     # Now extract flattened array from bits.
-    tot_bits = functools.reduce(lambda x, y: x * y, msg.shape)
+    tot_bits = functools.reduce(lambda x, y: x * y, msg.shape, 1)
     flat_bits = np.unpackbits(flat_bytes, count=tot_bits)
     return np.reshape(flat_bits, msg.shape).view(np.bool_)
